@@ -94,3 +94,89 @@ func (tx *Transaction) VerifVariablesDump() map[string][]string {
 	}
 	return out
 }
+
+// VerifRuleDump is the compiled form of one rule (one chain link) as the conformance harness compares it
+// with the structured description the rule text was rendered from.
+type VerifRuleDump struct {
+	ID              int
+	ParentID        int
+	Phase           int
+	Targets         []VerifTargetDump
+	HasOperator     bool
+	OperatorName    string
+	OperatorData    string
+	OperatorNegated bool
+	Transformations []string
+	Actions         []string
+	Msg             string
+	LogData         string
+	Tags            []string
+	Rev             string
+	Version         string
+	Severity        string
+	Maturity        int
+	Accuracy        int
+	Status          int
+	Log             bool
+	Audit           bool
+	Capture         bool
+	MultiMatch      bool
+	HasChain        bool
+	Raw             string
+	Chain           *VerifRuleDump
+}
+
+// VerifTargetDump is one compiled target.
+type VerifTargetDump struct {
+	Variable   string
+	Count      bool
+	KeyStr     string
+	KeyRx      string
+	HasRx      bool
+	Exceptions []VerifTargetDump
+}
+
+// VerifDump returns the compiled form of the rule and of its chain.
+func (r *Rule) VerifDump() *VerifRuleDump {
+	if r == nil {
+		return nil
+	}
+	d := &VerifRuleDump{
+		ID: r.ID_, ParentID: r.ParentID_, Phase: int(r.Phase_), Tags: append([]string{}, r.Tags_...), Rev: r.Rev_, Version: r.Version_,
+		Severity: r.Severity_.String(), Maturity: r.Maturity_, Accuracy: r.Accuracy_, Status: r.DisruptiveStatus,
+		Log: r.Log, Audit: r.Audit, Capture: r.Capture, MultiMatch: r.MultiMatch, HasChain: r.HasChain, Raw: r.Raw_,
+	}
+	if r.Msg != nil {
+		d.Msg = r.Msg.String()
+	}
+	if r.LogData != nil {
+		d.LogData = r.LogData.String()
+	}
+	for _, v := range r.variables {
+		t := VerifTargetDump{Variable: v.Variable.Name(), Count: v.Count, KeyStr: v.KeyStr}
+		if v.KeyRx != nil {
+			t.HasRx, t.KeyRx = true, v.KeyRx.String()
+		}
+		for _, e := range v.Exceptions {
+			x := VerifTargetDump{Variable: v.Variable.Name(), KeyStr: e.KeyStr}
+			if e.KeyRx != nil {
+				x.HasRx, x.KeyRx = true, e.KeyRx.String()
+			}
+			t.Exceptions = append(t.Exceptions, x)
+		}
+		d.Targets = append(d.Targets, t)
+	}
+	if r.operator != nil {
+		d.HasOperator, d.OperatorName, d.OperatorData, d.OperatorNegated = true, r.operator.Function, r.operator.Data, r.operator.Negation
+	}
+	transformationIDsLock.Lock()
+	if r.transformationsID < len(transformationIDToName) {
+		d.Transformations = []string{transformationIDToName[r.transformationsID]}
+	}
+	transformationIDsLock.Unlock()
+	for _, a := range r.actions {
+		d.Actions = append(d.Actions, a.Name)
+	}
+	d.Chain = r.Chain.VerifDump()
+	return d
+}
